@@ -294,6 +294,11 @@ def check_range(model, rep):
     gs = spec.guards('v <= 1 and v >= -1')
     ok = bool(done) and all(all(implies(abs_consequences(sx.ctx, o.state.guards), g) for g in gs) for o in done)
     rep.decide(ok, 'C14.range', 'DCMotor.pwm[setter]', 'the setter can store a duty cycle outside [-1, 1]', loc=st.loc)
+    dirty = [o for o in outs if o.kind == 'raise' and any(e[0] == 'store' and e[1] == 'self' for e in o.state.effects)]
+    rep.decide(not dirty, 'C14.range', 'DCMotor.pwm[setter]:raising-paths',
+               f'a path that raises {dirty[0].value if dirty else ""} has already stored the rejected duty cycle (the range check comes '
+               f'after the store): a caller that handles the error goes on with a duty cycle outside [-1, 1]',
+               loc=f'{st.module}:{dirty[0].loc if dirty else st.node.lineno}')
     # IEEE clause of the same guard: every ordering comparison with NaN is false, so a guard written as
     # `raise if v > 1 or v < -1` lets NaN through where `raise unless -1 <= v <= 1` does not (the built-in
     # StartLimitCurrent rule returns NaN for a negative radicand, and min(max(nan, -1), 1) is nan)
